@@ -453,6 +453,28 @@ def _sweep(rep, pp):
                     rep.violation("converting to simulation units and back returns the value", "numeric", inputs={"units": vals, "string": s}, detail=f"{back} vs {v}")
                 if not np.array_equal(arr, keep):
                     rep.violation("convert_units does not modify its argument", "array argument changed", inputs={"units": vals, "string": s}, detail="")
+        # histories: a Units object that has been used, whose base units are then re-assigned by attribute (the way Units.__init__ documents for
+        # changing base units after construction): derived units and conversions must follow the current base units
+        for _ in range(5 if quick else 50):
+            v1 = {b: 10 ** rng.uniform(-3, 3) for b in BASE if b != "s"}
+            v2 = {b: 10 ** rng.uniform(-3, 3) for b in BASE if b != "s"}
+            u = pp.Units(**v1)
+            first = {n: getattr(u, n) for n in list(DERIVED) + ["degree"]}  # use the object (every derived unit read once)
+            u.convert_units(1.0, "Pa*m^3*kg^-1")
+            for b, val in v2.items():
+                setattr(u, b, val)
+            fv = dict(v2, s=1.0)
+            sw.case(("re-assigned", tuple(sorted(v1.items())), tuple(sorted(v2.items()))), True, sample={"first": v1, "then": v2})
+            for n in list(DERIVED) + ["degree"]:
+                want = fv["rad"] * 180 / np.pi if n == "degree" else np.prod([fv[k] ** e for k, e in DERIVED[n].items()])
+                if not np.isclose(getattr(u, n), want, rtol=1e-12):
+                    rep.violation("derived units agree with the base-unit expressions", f"{n} after re-assigning the base units of a used Units object",
+                                  inputs={"history": "re-assigned", "first": v1, "then": v2, "unit": n}, detail=f"{n} = {getattr(u, n)}, base-unit expression {want} (before the re-assignment {first[n]})")
+            for s, f in (("Pa", fv["kg"] / fv["m"]), ("J*kg^-1", fv["m"] ** 2), ("W*m^-1*K^-1", fv["kg"] * fv["m"] / fv["K"])):
+                g = u.convert_units(2.0, s)
+                if not np.isclose(g, 2.0 / f, rtol=1e-10):
+                    rep.violation("conversion divides by the product of unit factors", "after re-assigning the base units of a used Units object",
+                                  inputs={"history": "re-assigned", "first": v1, "then": v2, "string": s}, detail=f"{g} vs {2.0 / f}")
     if rep.tier == "thorough" or True:
         _model_invariance(rep, pp)
 
